@@ -23,6 +23,9 @@ static std::vector<Axis> axes()
 	int perm[6][3] = {{1, 2, 3}, {1, 3, 2}, {2, 1, 3}, {2, 3, 1}, {3, 1, 2}, {3, 2, 1}};
 	for(auto& p : perm)
 		for(int s = 0; s < 8; s++) add((s & 1 ? -1 : 1) * p[0], (s & 2 ? -1 : 1) * p[1], (s & 4 ? -1 : 1) * p[2], "perm123");
+	if(mc::thorough())
+		for(int i = 1; i < 12; i++)
+			for(int j = 0; j < 24; j++) add(std::sin(M_PI * i / 12) * std::cos(2 * M_PI * j / 24 + 0.01), std::sin(M_PI * i / 12) * std::sin(2 * M_PI * j / 24 + 0.01), std::cos(M_PI * i / 12), "lattice");
 	for(double d : {1e-12, 1e-8, 1e-4})
 		for(int pole = -1; pole <= 1; pole += 2)
 			for(int dir = 0; dir < 4; dir++)
@@ -36,7 +39,8 @@ static std::vector<Axis> axes()
 static std::vector<double> angles()
 {
 	std::vector<double> a;
-	for(int k = -48; k <= 48; k++) a.push_back(k * M_PI / 12);
+	int den = mc::thorough() ? 48 : 12;
+	for(int k = -4 * den; k <= 4 * den; k++) a.push_back(k * M_PI / den);
 	for(double x : {1.0, -2.7, 0.123456789, 11.0}) a.push_back(x);
 	return a;
 }
